@@ -485,12 +485,6 @@ func c12applyField(data []byte, pos, width int, enc, class string) []byte {
 	return out
 }
 
-func minInt(a, b int) int {
-	if a < b {
-		return a
-	}
-	return b
-}
 
 // ---- jobs -----------------------------------------------------------------------------------------------------------
 
@@ -1306,9 +1300,3 @@ func TestVerifC12(t *testing.T) {
 	t.Logf("%d jobs, %d process deaths", len(jobs), restarts)
 }
 
-func maxInt(a, b int) int {
-	if a > b {
-		return a
-	}
-	return b
-}
